@@ -321,6 +321,8 @@ pub struct BodyIndex {
 pub struct LoopInfo {
     pub body_open: usize,
     pub iter_start: Option<usize>,
+    /// for loops: (for kw start, pat start, pat end, expr start, expr end, body end)
+    pub for_parts: Option<(usize, usize, usize, usize, usize, usize)>,
 }
 
 struct BodyVisitor<'a> {
@@ -336,7 +338,11 @@ impl<'a, 'ast> Visit<'ast> for BodyVisitor<'a> {
     fn visit_expr_for_loop(&mut self, l: &'ast syn::ExprForLoop) {
         let open = self.src.span_range(l.body.brace_token.span.open()).0;
         let it = self.src.range(&*l.expr).0;
-        self.idx.loops.push(LoopInfo { body_open: open, iter_start: Some(it) });
+        let fk = self.src.span_range(l.for_token.span()).0;
+        let pr = self.src.range(&*l.pat);
+        let er = self.src.range(&*l.expr);
+        let be = self.src.range(&l.body).1;
+        self.idx.loops.push(LoopInfo { body_open: open, iter_start: Some(it), for_parts: Some((fk, pr.0, pr.1, er.0, er.1, be)) });
         syn::visit::visit_expr_for_loop(self, l);
     }
     fn visit_expr_closure(&mut self, c: &'ast syn::ExprClosure) {
@@ -347,12 +353,12 @@ impl<'a, 'ast> Visit<'ast> for BodyVisitor<'a> {
     }
     fn visit_expr_while(&mut self, l: &'ast syn::ExprWhile) {
         let open = self.src.span_range(l.body.brace_token.span.open()).0;
-        self.idx.loops.push(LoopInfo { body_open: open, iter_start: None });
+        self.idx.loops.push(LoopInfo { body_open: open, iter_start: None, for_parts: None });
         syn::visit::visit_expr_while(self, l);
     }
     fn visit_expr_loop(&mut self, l: &'ast syn::ExprLoop) {
         let open = self.src.span_range(l.body.brace_token.span.open()).0;
-        self.idx.loops.push(LoopInfo { body_open: open, iter_start: None });
+        self.idx.loops.push(LoopInfo { body_open: open, iter_start: None, for_parts: None });
         syn::visit::visit_expr_loop(self, l);
     }
 }
@@ -551,6 +557,7 @@ struct Emitter {
     rules: BTreeMap<String, usize>,
     functions: Vec<serde_json::Value>,
     trusted: Vec<String>,
+    missing_anchors: Vec<String>,
 }
 
 impl Emitter {
@@ -561,7 +568,40 @@ impl Emitter {
     }
 }
 
-fn fn_edits(src: &Src, take: &Take, sig: &syn::Signature, block: &syn::Block, fname: &str, edits: &mut Vec<Edit>) -> Result<(), String> {
+/// push hint text as labelled chunks: lines carrying `/*@name*/` become obligation `fn::name`, others `fn::hint`
+fn push_hint(edits: &mut Vec<Edit>, at: usize, text: &str, fname: &str, lead_nl: bool) {
+    let chunks = labelled_lines(text.trim_end(), "hint");
+    let mut curl = String::new();
+    let mut buf = String::new();
+    if lead_nl { buf.push('\n'); }
+    for (l, lab) in chunks {
+        if lab != curl && buf.trim().len() > 0 {
+            edits.push(Edit { start: at, end: at, text: std::mem::take(&mut buf), rule: "proof-hint", label: Some(format!("{}::{}", fname, curl)), prio: 1 });
+        }
+        curl = lab;
+        buf.push_str(&l);
+        buf.push('\n');
+    }
+    if !buf.is_empty() {
+        edits.push(Edit { start: at, end: at, text: buf, rule: "proof-hint", label: Some(format!("{}::{}", fname, curl)), prio: 1 });
+    }
+}
+
+/// anchors ending in `?` are optional: if the statement is gone the hint is skipped (the proof then
+/// fails on its own and is reported as a violated obligation, not as an extraction problem)
+fn find_anchor_opt(idx: &BodyIndex, anchor: &str, fname: &str, missing: &mut Vec<String>) -> Result<Option<(usize, usize)>, String> {
+    let a = anchor.trim();
+    if let Some(stripped) = a.strip_prefix("? ") {
+        match find_anchor(idx, stripped) {
+            Ok(r) => Ok(Some(r)),
+            Err(e) => { missing.push(format!("{}: {}", fname, e)); Ok(None) }
+        }
+    } else {
+        find_anchor(idx, a).map(Some).map_err(|e| format!("{}: {}", fname, e))
+    }
+}
+
+fn fn_edits(src: &Src, take: &Take, sig: &syn::Signature, block: &syn::Block, fname: &str, edits: &mut Vec<Edit>, missing: &mut Vec<String>) -> Result<(), String> {
     let mut bv = BodyVisitor { src, idx: BodyIndex { stmts: vec![], loops: vec![], closures: vec![] } };
     bv.visit_block(block);
     let idx = bv.idx;
@@ -617,7 +657,7 @@ fn fn_edits(src: &Src, take: &Take, sig: &syn::Signature, block: &syn::Block, fn
             Sub::LoopStart(n, text) => {
                 let li = idx.loops.get(n - 1).ok_or(format!("{}: loop #{} not found (function has {} loops)", fname, n, idx.loops.len()))?;
                 let p = li.body_open + 1;
-                edits.push(Edit { start: p, end: p, text: format!("\n{}\n", text.trim_end()), rule: "proof-hint", label: Some(format!("{}::hint", fname)), prio: 1 });
+                push_hint(edits, p, text, fname, true);
             }
             Sub::Closure(n, hdr, text) => {
                 let c = idx.closures.get(n - 1).ok_or(format!("{}: closure #{} not found (function has {} closures)", fname, n, idx.closures.len()))?;
@@ -629,23 +669,38 @@ fn fn_edits(src: &Src, take: &Take, sig: &syn::Signature, block: &syn::Block, fn
                 }
             }
             Sub::Before(anchor, text) => {
-                let r = find_anchor(&idx, anchor).map_err(|e| format!("{}: {}", fname, e))?;
-                edits.push(Edit { start: r.0, end: r.0, text: format!("{}\n", text.trim_end()), rule: "proof-hint", label: Some(format!("{}::hint", fname)), prio: 1 });
+                if let Some(r) = find_anchor_opt(&idx, anchor, fname, missing)? {
+                    push_hint(edits, r.0, text, fname, false);
+                }
             }
             Sub::After(anchor, text) => {
-                let r = find_anchor(&idx, anchor).map_err(|e| format!("{}: {}", fname, e))?;
-                edits.push(Edit { start: r.1, end: r.1, text: format!("\n{}\n", text.trim_end()), rule: "proof-hint", label: Some(format!("{}::hint", fname)), prio: 1 });
+                if let Some(r) = find_anchor_opt(&idx, anchor, fname, missing)? {
+                    push_hint(edits, r.1, text, fname, true);
+                }
             }
             Sub::Replace(anchor, text) => {
-                let r = find_anchor(&idx, anchor).map_err(|e| format!("{}: {}", fname, e))?;
-                edits.push(Edit { start: r.0, end: r.1, text: text.trim_end().to_string(), rule: "R8-replace-stmt", label: Some(format!("{}::r8", fname)), prio: 0 });
+                if let Some(r) = find_anchor_opt(&idx, anchor, fname, missing)? {
+                    edits.push(Edit { start: r.0, end: r.1, text: text.trim_end().to_string(), rule: "R8-replace-stmt", label: Some(format!("{}::r8", fname)), prio: 0 });
+                }
+            }
+            Sub::ForToLoop(n, text) => {
+                // R11: `for PAT in EXPR { B }` -> `{ let mut vx_it = EXPR; loop <inv> { let PAT = <text>; B } }`
+                let li = idx.loops.get(n - 1).ok_or(format!("{}: loop #{} not found", fname, n))?;
+                let f = li.for_parts.ok_or(format!("{}: loop #{} is not a for loop", fname, n))?;
+                // f = (for_kw_start, pat_start, pat_end, expr_start, expr_end, body_close_end)
+                let pat = src.text[f.1..f.2].to_string();
+                edits.push(Edit { start: f.0, end: f.3, text: "{ let mut vx_it = ".into(), rule: "R11-for-to-loop", label: None, prio: -5 });
+                edits.push(Edit { start: f.4, end: f.4, text: "; loop ".into(), rule: "R11-for-to-loop", label: None, prio: -5 });
+                let p = li.body_open + 1;
+                edits.push(Edit { start: p, end: p, text: format!("\nlet {} = {};\n", pat, text.trim()), rule: "R11-for-to-loop", label: None, prio: -5 });
+                edits.push(Edit { start: f.5, end: f.5, text: " }".into(), rule: "R11-for-to-loop", label: None, prio: -30 });
             }
             Sub::Start(text) => {
                 let p = body_open + 1;
-                edits.push(Edit { start: p, end: p, text: format!("\n{}\n", text.trim_end()), rule: "proof-hint", label: Some(format!("{}::hint", fname)), prio: 1 });
+                push_hint(edits, p, text, fname, true);
             }
             Sub::End(text) => {
-                edits.push(Edit { start: body_close, end: body_close, text: format!("\n{}\n", text.trim_end()), rule: "proof-hint", label: Some(format!("{}::hint", fname)), prio: 1 });
+                push_hint(edits, body_close, text, fname, true);
             }
             _ => {}
         }
@@ -663,7 +718,7 @@ fn do_extract(args: &BTreeMap<String, String>) -> Result<(), String> {
     let dirs = spec::parse(&spec_text, cdir)?;
     let mut srcs: BTreeMap<String, Src> = BTreeMap::new();
     let mut cur_src: Option<String> = None;
-    let mut em = Emitter { lines: vec![], rules: BTreeMap::new(), functions: vec![], trusted: vec![] };
+    let mut em = Emitter { lines: vec![], rules: BTreeMap::new(), functions: vec![], trusted: vec![], missing_anchors: vec![] };
     let mut unit = String::new();
     let mut method_rewrites: Vec<(String, String, bool)> = Vec::new();
     for d in &dirs {
@@ -738,7 +793,7 @@ fn do_extract(args: &BTreeMap<String, String>) -> Result<(), String> {
                         footer = String::new();
                         match it {
                             syn::Item::Fn(f) => {
-                                fn_edits(src, take, &f.sig, &f.block, &fname_disp, &mut edits)?;
+                                fn_edits(src, take, &f.sig, &f.block, &fname_disp, &mut edits, &mut em.missing_anchors)?;
                                 if take.stub {
                                     let br = src.range(&*f.block);
                                     edits.retain(|e| e.end <= br.0 || e.start >= br.1 || (e.start == br.0 && e.end == br.0));
@@ -771,7 +826,7 @@ fn do_extract(args: &BTreeMap<String, String>) -> Result<(), String> {
                         htext = htext.replace("pub(crate)", "pub");
                         header = htext;
                         footer = "}".to_string();
-                        fn_edits(src, take, &f.sig, &f.block, &fname_disp, &mut edits)?;
+                        fn_edits(src, take, &f.sig, &f.block, &fname_disp, &mut edits, &mut em.missing_anchors)?;
                         if take.stub {
                             // keep the signature only: replace the body block
                             let br = src.range(&f.block);
@@ -894,7 +949,7 @@ fn do_extract(args: &BTreeMap<String, String>) -> Result<(), String> {
     trusted.dedup();
     let m = json!({
         "unit": unit, "spec": spec_path, "lines": map, "rewrites": em.rules,
-        "functions": em.functions, "trusted": trusted,
+        "functions": em.functions, "trusted": trusted, "missing_optional_anchors": em.missing_anchors,
     });
     std::fs::write(map_path, serde_json::to_string(&m).unwrap()).map_err(|e| format!("{map_path}: {e}"))?;
     Ok(())
